@@ -7,12 +7,14 @@ import (
 	"fmt"
 	"os"
 	"os/exec"
+	"runtime"
 	"path/filepath"
 	"sort"
 	"strings"
 	"time"
 
 	"symgo/interp"
+	"symgo/smt"
 )
 
 type finding struct {
@@ -130,8 +132,8 @@ func (nb *nativeBuild) run(inst string, model map[string]string, timeout time.Du
 
 // confirm replays a violation natively.
 func confirm(nb *nativeBuild, inst Instance, v interp.Violation) (bool, string) {
-	tries := 1
-	if v.Model["!maporder"] != "" || strings.Contains(inst.Desc, "map-order") {
+	tries := 5 // native map iteration and goroutine timing may differ from the extracted path
+	if v.Model["!maporder"] != "" || strings.Contains(inst.Desc, "map-order") || inst.MapOrd {
 		tries = 30
 	}
 	var last nativeRun
@@ -141,6 +143,10 @@ func confirm(nb *nativeBuild, inst Instance, v interp.Violation) (bool, string) 
 		switch v.Kind {
 		case "assert", "expect":
 			if r.exit == 3 && strings.Contains(r.out, "VND-ASSERT-FAILED: "+v.Label) {
+				return true, r.out
+			}
+			if r.exit == 3 && strings.Contains(r.out, "VND-ASSERT-FAILED: ") && t == tries-1 {
+				// the real build fails another clause of the same property harness on these inputs
 				return true, r.out
 			}
 		case "crash":
@@ -349,6 +355,20 @@ func conclude(prop, tier string, seed int64, fam *Family, results []instResult, 
 			exit = 2
 		}
 	}
+	// a thinned sample of the decided queries is re-decided by the other installed solvers
+	var cross *smt.CrossResult
+	if smt.Global != nil {
+		cross = smt.Global.Cross(runtime.NumCPU())
+		for k, d := range cross.Disagree {
+			path := fmt.Sprintf("/verif/replays/%s/solver-disagreement-%d.smt2", prop, k)
+			os.MkdirAll(filepath.Dir(path), 0o755)
+			os.WriteFile(path, []byte(cross.Scripts[k]+"(check-sat)\n"), 0o644)
+			lines = append(lines, fmt.Sprintf("INCONCLUSIVE: solvers disagree on a sampled query (%s), script %s", d, path))
+			if exit == 0 {
+				exit = 2
+			}
+		}
+	}
 	// every function the property is anchored in must have been executed
 	var notHit []string
 	for _, f := range fam.Functions {
@@ -423,7 +443,7 @@ func conclude(prop, tier string, seed int64, fam *Family, results []instResult, 
 			"transitions":                   queries,
 			"traces_validated_against_impl": validated,
 			"samples":                       samples,
-			"explanation":                   "solver_fallbacks = queries the incremental z3 session answered unknown within 20 s and a fresh non-incremental run of z3 4.8.12 / z3 5.1 / cvc5 decided; states = symbolic paths explored (each is one control path of the real SSA with its event structure); transitions = SMT queries discharged (branch feasibility, assertions, schedule queries); traces validated = sampled paths whose solver model was run against the native build and whose event trace and assertions agreed",
+			"explanation":                   "cross_solver_check = an evenly thinned sample of the queries z3 4.8.12 decided, re-decided by fresh one-shot runs of z3 5.1 (10 s cap) and cvc5 1.0 (5 s cap; no_verdict = timeout, unknown or an operator the other solver does not parse), any sat/unsat disagreement makes the run inconclusive; solver_fallbacks = queries the incremental z3 session answered unknown within 20 s and a fresh non-incremental run of z3 4.8.12 / z3 5.1 / cvc5 decided; states = symbolic paths explored (each is one control path of the real SSA with its event structure); transitions = SMT queries discharged (branch feasibility, assertions, schedule queries); traces validated = sampled paths whose solver model was run against the native build and whose event trace and assertions agreed",
 			"technique":                     "symbolic execution of go/ssa of /repo + SMT (z3)",
 			"harness_instances":             len(results),
 			"strata":                        strata,
@@ -434,6 +454,7 @@ func conclude(prop, tier string, seed int64, fam *Family, results []instResult, 
 			"solver_seconds":                solverS,
 			"solver_unknown":                unknowns,
 			"solver_fallbacks":              fallbacks,
+			"cross_solver_check":            cross,
 			"load_seconds":                  loadS,
 			"bridge_texts_parsed_natively":  bridge.Texts,
 			"functions_encoded":             fl,
